@@ -49,6 +49,21 @@ def abs_strip(e):
             return e
 
 
+def _is_square(e):
+    e = shape_strip(e)
+    if isinstance(e, ast.BinOp) and isinstance(e.op, ast.Mult) and dump(shape_strip(e.left)) == dump(shape_strip(e.right)):
+        return True
+    if isinstance(e, ast.BinOp) and isinstance(e.op, ast.Pow) and isinstance(e.right, ast.Constant) and e.right.value == 2:
+        return True
+    if isinstance(e, ast.Call) and isinstance(e.func, ast.Attribute) and e.func.attr in ('square', 'square_') and not (dotted(e.func) or '').startswith('torch.'):
+        return True
+    if isinstance(e, ast.Call) and dotted(e.func) in ('torch.square',):
+        return True
+    if isinstance(e, ast.Call) and isinstance(e.func, ast.Attribute) and e.func.attr == 'pow' and e.args and isinstance(e.args[0], ast.Constant) and e.args[0].value == 2:
+        return True
+    return False
+
+
 def atom_table(mask_exprs):
     """atom key -> (variable root node, sense) ; sense +1: atom true <=> variable large, -1: atom true <=> variable small"""
     out = {}
@@ -215,6 +230,7 @@ def rule_limit(repo, rid, targets, floor, decided_floor=None):
                      'no negative order, equal coefficients up to the degree the branch states, as functions of the variables free in both regimes',
                      floor=floor)
     decided = 0
+    sq_seen = set()
     for mod, q in targets:
         f = repo.func(mod, q)
         groups, guards, inl = masks.analyse_function(f.node)
@@ -224,6 +240,14 @@ def rule_limit(repo, rid, targets, floor, decided_floor=None):
             atoms = []
             for m in g.members:
                 masks.atoms_of(m[0], atoms)
+            # a magnitude guard compares a quantity of degree ONE in the data with eps (|x| > eps, norm > eps): a squared quantity (x * x, x.square(), x ** 2)
+            # against the same eps moves the switch-over to sqrt(eps), where the small-argument branch (a limit / low-order Taylor polynomial) is not accurate
+            for a in atoms:
+                if a in table and _is_square(table[a][0]) and (f.fq, label, a) not in sq_seen:
+                    sq_seen.add((f.fq, label, a))
+                    res.add(Finding(rid, f, 'the magnitude guard of `%s` compares the SQUARED quantity `%s` with eps: the branch written for |x| <= eps now serves '
+                                    '|x| <= sqrt(eps), far outside the range in which its limit / truncated series is accurate' % (label, _short(table[a][0], 40)),
+                                    construct='squared quantity compared with eps|' + label))
             if not atoms or any(a not in table for a in atoms) or len(atoms) > 3:
                 continue
             # one variable per atom; atoms on the same root would need interval reasoning
